@@ -21,7 +21,7 @@ FILES = ["/f1.conf", "/f2.conf", "/usr/etc/cfg.conf", "/etc/cfg.conf", "/usr/etc
 FILES_CFG = ["/usr/lib/prj/cfg.conf", "/usr/lib/prj/cfg.conf.d/a.conf", "/run/prj/cfg.conf.d/a.conf", "/run/prj/cfg.conf.d/r.conf", "/etc/prj/cfg.conf",
              "/etc/prj/cfg.conf.d/z.conf", "/etc/prj/cfg.d/alt.conf", "/etc/prj/cfg/conf.d/deep.conf", "/usr/lib/cfg.conf", "/etc/cfg.conf.d/c.conf",
              "/usr/lib/prj.d/p1.conf", "/etc/prj.d/p1.conf", "/etc/prj.d/p2.conf", "/etc/prj.conf", "/p1/cfg.conf", "/p2/cfg.conf.d/x.conf", "/p2/cfg.d/y.conf",
-             "/usr/etc/cfg/alt.d/q.conf", "/etc/cfg.d/y.conf"]
+             "/usr/etc/cfg/alt.d/q.conf", "/etc/cfg.d/y.conf", "/run/cfg.conf", "/run/cfg.conf.d/r.conf", "/etc/cfg.conf.d/r.conf", "/usr/lib/cfg.conf.d/r.conf"]
 INTTYPES = {"Int": (-2**31, 2**31 - 1), "Int64": (-2**63, 2**63 - 1), "UInt": (0, 2**32 - 1), "UInt64": (0, 2**64 - 1)}
 
 
@@ -230,9 +230,14 @@ class Mixed:
         self.live.add(h)
 
     def op_write(self, h):
-        self.nout += 1
-        f = "/out/w%d.conf" % self.nout
-        self.add("write %d %s %s" % (h, hx(self.R + "/out"), hx("w%d.conf" % self.nout)),
+        # one time in three an earlier name is written again: the file then holds exactly the new content
+        if self.nout and self.r.random() < 0.35:
+            n = self.r.randint(1, self.nout)
+        else:
+            self.nout += 1
+            n = self.nout
+        f = "/out/w%d.conf" % n
+        self.add("write %d %s %s" % (h, hx(self.R + "/out"), hx("w%d.conf" % n)),
                  lambda ev, root, h=h, f=f: [{"e": "write", "h": h, "path": codes(f), "rc": ev["rc"]}])
         self.files.add(f)
 
